@@ -372,7 +372,7 @@ def check_output_gates(rep, repo):
     # the public getters of Solver go through these two functions only
     for name in ('get_results', 'get_results_short', 'get_results_long'):
         sf = repo.method('Solver', name)
-        bad = [n for n in ast.walk(sf.node) if isinstance(n, ast.Attribute) and n.attr in ('varValue', 'lp_var', '_get_pair_assignments', '_get_matching_string')]
+        bad = [n for n in ast.walk(sf.node) if isinstance(n, ast.Attribute) and n.attr in ('varValue', 'lp_var', repo.actual('Model', '_get_pair_assignments'), repo.actual('Model', '_get_matching_string'))]
         rep.check(not bad, rule, sf.where, 'Solver.%s obtains matching output only through the gated Model.get_results / brute-force results' % name,
                   got=[ast.unparse(b) for b in bad], construct='ungated access in Solver.%s' % name)
 
